@@ -135,3 +135,9 @@ def drain():
     out = list(VIOLATIONS)
     VIOLATIONS.clear()
     return out
+
+
+def forget():
+    """Drops the routers of retorts the caller is done with (they are kept alive only so that ids stay unique while they are in use).
+    The thorough tier of C09 builds millions of routers: without this a shard grew to 7.7 GB and half of the shards were OOM-killed."""
+    ROUTERS.clear()
